@@ -52,6 +52,9 @@ def build_driver(pid):
     os.makedirs(d, exist_ok=True)
     xv = os.path.join(COQ, "Extract", f"X{pid}.v")
     rc, out, _ = run(["coqc", "-Q", COQ, "V", xv], cwd=d, timeout=600)
+    if rc != 0 and "inconsistent assumptions" in out:
+        coq_make([f"Dispatch/D{pid}.vo"])
+        rc, out, _ = run(["coqc", "-Q", COQ, "V", xv], cwd=d, timeout=600)
     for ext in (".vo", ".glob", ".vok", ".vos"):
         try:
             os.remove(os.path.join(COQ, "Extract", f"X{pid}{ext}"))
